@@ -216,6 +216,38 @@ pub fn check(ctx: &Ctx) -> i32 {
             files += 1;
         }
         ev.extra.insert("repository_files".into(), json!(files));
+        // coverage-guided campaign (thorough only)
+        if ctx.tier == Tier::Thorough && report.violations.is_empty() {
+            let mut seeds: Vec<Vec<u8>> = vec![];
+            for b in buffers(ctx.seed, 516, 300, 40, 1500) {
+                let (text, _) = syntax_case(ctx, &b);
+                let mut v = vec![b.first().copied().unwrap_or(40), b.get(1).copied().unwrap_or(2)];
+                v.extend_from_slice(text.as_bytes());
+                seeds.push(v);
+            }
+            match crate::fuzzrun::campaign(ctx, "roundtrip", &seeds, 400_000, 900) {
+                Err(e) => report.infra_errors.push(e),
+                Ok(c) => {
+                    ev.extra.insert("libfuzzer_executed_units".into(), json!(c.executed));
+                    ev.evaluations += c.executed;
+                    for a in &c.artifacts {
+                        if a.len() < 3 {
+                            continue;
+                        }
+                        let width = 1 + (a[0] as usize % 200);
+                        let indent = (a[1] % 9) as isize;
+                        let text = String::from_utf8_lossy(&a[2..]).into_owned();
+                        let r = round_trip(&text, width, indent);
+                        if let CaseResult::Fail(fl) = &r {
+                            if report.violations.is_empty() {
+                                eprintln!("libFuzzer artifact: {}", fl.summary);
+                                report.violations.push(write_replay_with(ctx, "text", &[], fl, json!({"source": text, "width": width, "indent": indent})));
+                            }
+                        }
+                    }
+                }
+            }
+        }
     }
     finish(ctx, &ev, &report, start)
 }
